@@ -655,6 +655,8 @@ func (fc *FnCtx) atCall(st *State, instr ssa.CallInstruction, name string, args 
 			default:
 				t := env.evalBool(a.C.E)
 				fc.vc.oblige(st, "assert", label, fmt.Sprintf("at call %s#%d:%s", name, ord, label), fc.e.pos(instr.Pos()), t)
+				// an asserted fact is available afterwards (it is a lemma at this point)
+				st.guard = fc.vc.define("g_lem", SBool, mkAnd(st.guard, t))
 			}
 		})
 	}
